@@ -37,11 +37,15 @@ async def run_history(sc):
                 ag.disco_delta = 1
                 raw = ag.report(q, "unknownEngineIDs", None, q["msgid"] + 1, q.get("reqid", 0))
                 ag.disco_delta = 0
-            elif disco == "no_varbinds":
-                raw = build_v3(q["msgid"], 65507, 0, ag.engine, ag.boots, ag.engine_time(), b"", b"", b"",
+            elif disco in ("no_varbinds", "no_varbinds_stale"):
+                # a refused reply must leave nothing behind: the stale variant carries the timing of the previous boot cycle
+                stale = disco.endswith("stale")
+                raw = build_v3(q["msgid"], 65507, 0, ag.engine, max(ag.boots - 1, 0) if stale else ag.boots, ag.engine_time() + (432000 if stale else 0), b"", b"", b"",
                                build_scoped(ag.engine, b"", build_pdu(REPORT, q.get("reqid", 0), 0, 0, [])))
         return raw
-    c = Client("192.0.2.1", drv_usm.make_creds(sc), sender=sender)
+    # a configured context engine id (Client(engine_id=...)) names the context, not the agent: discovery still comes first
+    cfg_ctx = {"agent": engine, "other": b"\x80\x00\x00\x01\x02ctx-behind"}.get(sc.get("ctxengine"), b"")
+    c = Client("192.0.2.1", drv_usm.make_creds(sc), sender=sender, engine_id=cfg_ctx)
     import puresnmp.api.raw, puresnmp_plugins.security.usm  # noqa
     _clk = patched_clock(lambda: clock[0], monotonic=True)     # no event-loop timers are used in this driver
     _clk.__enter__()
@@ -60,7 +64,7 @@ async def run_history(sc):
                     if q.get("engine") == b"" and "user" in q and q.get("verdict") == "unknownEngineIDs":
                         continue
                     reqs.append(dict(boots=q["boots"], time=q["time"], agent_boots=ag.boots, agent_time=q.get("agent_time", ag.engine_time()),
-                                     auth=bool(q["flags"] & 1), engine_ok=q["engine"] == engine, ctx_ok=q.get("ctxengine", engine) == engine, verdict=q.get("verdict", "?")))
+                                     auth=bool(q["flags"] & 1), engine_ok=q["engine"] == engine, ctx_ok=q.get("ctxengine", cfg_ctx or engine) == (cfg_ctx or engine), verdict=q.get("verdict", "?")))
                 w = wire[w0:]
                 events.append(dict(e="op", ret=ret, probes=w.count("probe"), first_wire=w[0] if w else "none", reqs=reqs))
             elif step == "reboot":
